@@ -459,19 +459,16 @@ theorem number_wfU (sd : Bytes → Option UInt64) (inp r : Bytes) (v : JVal)
   all_goals first
     | (cases h; done)
     | skip
-  · rename_i ip r1 _ fp r2 _ ep r3 _ hc
+  all_goals
     simp only [Option.some.injEq, Prod.mk.injEq] at h
     rw [← h.1]
-    simp only [Bool.and_eq_true, decide_eq_true_eq] at hc
-    have e1 : maxInt = 9007199254740991 := by decide
-    have e2 : Rfc.maxInt = 9007199254740991 := by decide
-    have := hc.2; rw [e2] at this
-    simp only [JVal.wfU, e1]
-    cases neg <;> simp <;> omega
-  · rename_i x _ hx
-    simp only [Option.some.injEq, Prod.mk.injEq] at h
-    rw [← h.1]
-    exact hx
+  all_goals first
+    | (simp only [JVal.wfU, isFinite]; assumption)
+    | (have e1 : maxInt = 9007199254740991 := by decide
+       have e2 : Rfc.maxInt = 9007199254740991 := by decide
+       simp only [Bool.and_eq_true, decide_eq_true_eq, e2] at *
+       simp only [JVal.wfU, e1]
+       omega)
 
 theorem value_wfU (sd : Bytes → Option UInt64) : ∀ fuel : Nat,
     (∀ inp v r, value sd fuel inp = some (v, r) → v.wfU) ∧
